@@ -37,14 +37,16 @@ LEVEL_TEXT = ('full proof: the Lean transcription of opus_packet_parse_impl is p
               'reported offsets in bounds; the transcription is tied to the code by exhaustive header-shape enumeration and '
               'structured fuzz with exact comparison of every out-parameter under ASan/UBSan')
 LEVEL_NOTE = ('trusted: Lean kernel; the correspondence harness and line protocol; bytes modelled as naturals < 256, C int '
-              'arithmetic as unbounded Int (range lemma int_ranges covers len < 2^31)')
+              'arithmetic as unbounded Int, justified by the range theorems int_ranges / int16_stores_lossless / '
+              'int16_truncated_store_rejected for every len < 2^31 (the trace functions of OpusProofs/FramingRange.lean that '
+              'list the C intermediates are read against src/opus.c by hand)')
 TECHNIQUE = 'Lean 4 theorem (soundness+completeness vs. RFC serialiser spec) + differential correspondence'
 
 REQUIRED_THEOREMS = ['OpusProps.C06.parse_complete', 'OpusProps.C06.parse_sound', 'OpusProps.C06.parse_accepts_iff',
                      'OpusProps.C06.parse_accepts_iff_sd', 'OpusProps.C06.parse_in_bounds',
                      'OpusProps.C06.parse_reads_only_packet', 'OpusProps.C06.parse_err_kind',
                      'OpusProps.C06.encodeSize_eq_spec', 'OpusProps.C06.helpers_agree',
-                     'OpusProps.C06.nb_frames_agrees', 'OpusProps.C06.has_lbrr_reads_only_packet']
-UNPROVED = ['int_ranges (every intermediate of the C parser fits opus_int32 when len < 2^31, and the opus_int16 stores are '
-            'lossless on success) — the model uses unbounded Int; on success all stored sizes are <= 1275 by '
-            'parse_in_bounds, the 32-bit range of intermediates is only covered by UBSan in the correspondence runs']
+                     'OpusProps.C06.nb_frames_agrees', 'OpusProps.C06.has_lbrr_reads_only_packet',
+                     'OpusProps.C06.int_ranges', 'OpusProps.C06.int16_stores_lossless',
+                     'OpusProps.C06.int16_truncated_store_rejected']
+UNPROVED = []
